@@ -314,8 +314,10 @@ class DescriptorTransaction(_TransactionBase):
                     self._mdib.descriptions.add_object_no_lock(new_descriptor)
                     # increment DescriptorVersion if a child descriptor is added or deleted.
                     if new_descriptor.parent_handle is not None \
-                            and new_descriptor.parent_handle not in to_be_created_handles:
-                        # only update parent if it is not also created in this transaction
+                            and new_descriptor.parent_handle not in to_be_created_handles \
+                            and new_descriptor.parent_handle not in self.descriptor_updates:
+                        # only update parent if it is not also created (or itself updated, which already
+                        # incremented its version) in this transaction
                         self._increment_parent_descriptor_version(proc, new_descriptor)
                     self._update_corresponding_state(new_descriptor)
                 elif new_descriptor is None:
@@ -328,8 +330,9 @@ class DescriptorTransaction(_TransactionBase):
                     proc.descr_deleted.extend([d.mk_copy() for d in all_descriptors])
                     # increment DescriptorVersion if a child descriptor is added or deleted.
                     if orig_descriptor.parent_handle is not None \
-                            and orig_descriptor.parent_handle not in to_be_deleted_handles:
-                        # only update parent if it is not also deleted in this transaction
+                            and orig_descriptor.parent_handle not in to_be_deleted_handles \
+                            and orig_descriptor.parent_handle not in self.descriptor_updates:
+                        # only update parent if it is not also deleted (or itself updated) in this transaction
                         self._increment_parent_descriptor_version(proc, orig_descriptor)
                 else:
                     # this is an update operation
